@@ -204,6 +204,7 @@ def pool_body(args):
         for tid, st, prc in processed:
             if st in (LocalStatus.SUBMITTED, LocalStatus.RUNNING):
                 eff_cancel.setdefault(tid, (st, prc))
+        problems = []
         final = {}
         for i in range(nt):
             tid = tids[i]
@@ -211,9 +212,9 @@ def pool_body(args):
             final[tid] = st
             nm = scen[i][0]
             if st not in FINAL or not sched.tasks[tid].done():
-                return "[C13] task %s never reached a final state (state %s, coroutine done=%s)" % (nm, st.name, sched.tasks[tid].done())
+                return ("[C13] task %s never reached a final state (state %s, coroutine done=%s)" % (nm, st.name, sched.tasks[tid].done()))
             if pool.spawn_attempts.count(tid) > 1:
-                return "[C13] task %s was started %d times" % (nm, pool.spawn_attempts.count(tid))
+                problems.append("[C13] task %s was started %d times" % (nm, pool.spawn_attempts.count(tid)))
         for i in range(nt):       # deps come first in every scenario
             tid = tids[i]
             nm, deps_i, tl, _ = scen[i]
@@ -224,11 +225,11 @@ def pool_body(args):
             attempted = tid in pool.spawn_attempts
             spawned = tid in pool.spawn_facts
             if spawned and not pool.spawn_facts[tid]["deps_done_completed"]:
-                return "[C11] task %s was started before all its dependencies had completed successfully" % nm
+                problems.append("[C11] task %s was started before all its dependencies had completed successfully" % nm)
             if (bad_failed or bad_cancel) and attempted:
                 # it may only have been started if every dependency was COMPLETED at that moment - checked above;
                 # a dependency cannot leave COMPLETED (checked by observe)
-                return "[C11] task %s was started although dependency states are %s" % (nm, [final[d].name for d in deps])
+                problems.append("[C11] task %s was started although dependency states are %s" % (nm, [final[d].name for d in deps]))
             proc = pool.proc_of(tid)
             acceptable = []
             natural = []
@@ -263,20 +264,22 @@ def pool_body(args):
             else:
                 acceptable = natural
             if not acceptable and not attempted and not (bad_failed or bad_cancel) and tid not in eff_cancel:
-                return "[C13] task %s was never started although nothing prevented it (final state %s)" % (nm, st.name)
+                problems.append("[C13] task %s was never started although nothing prevented it (final state %s)" % (nm, st.name))
             if st not in acceptable:
                 what = "cancel requested while %s" % eff_cancel[tid][0].name if tid in eff_cancel else ("deps " + str([final[d].name for d in deps]) if deps else "")
-                return "[C13] task %s ended %s; acceptable: %s (%s; started=%s, exit=%s)" % (nm, st.name, [a.name for a in acceptable], what, spawned, getattr(proc, "rc_given", None) if proc else None)
+                problems.append("[C13] task %s ended %s; acceptable: %s (%s; started=%s, exit=%s)" % (nm, st.name, [a.name for a in acceptable], what, spawned, getattr(proc, "rc_given", None) if proc else None))
             if (bad_failed or bad_cancel) and st == LocalStatus.COMPLETED:
-                return "[C11] task %s completed although a dependency did not" % nm
+                problems.append("[C11] task %s completed although a dependency did not" % nm)
             # logs of a task that ran to its end and completed are stored completely
             if spawned and proc.ran_to_end and st == LocalStatus.COMPLETED:
                 if pool.log(nm, "stdout") != proc.stdout.decode() or pool.log(nm, "stderr") != proc.stderr.decode():
-                    return "[C13] logs of completed task %s are incomplete: %r / %r" % (nm, pool.log(nm, "stdout"), pool.log(nm, "stderr"))
+                    problems.append("[C13] logs of completed task %s are incomplete: %r / %r" % (nm, pool.log(nm, "stdout"), pool.log(nm, "stderr")))
             if spawned and st == LocalStatus.COMPLETED and not (proc.ran_to_end and proc.rc_given == 0):
-                return "[C13] task %s is completed but its process did not run to an exit status 0" % nm
+                problems.append("[C13] task %s is completed but its process did not run to an exit status 0" % nm)
             if spawned and proc.returncode is None:
-                return "[C13] process of task %s still running at the end" % nm
+                problems.append("[C13] process of task %s still running at the end" % nm)
+        if problems:
+            return " | ".join(problems)
         return ""
     finally:
         pool.uninstall()
